@@ -52,6 +52,7 @@ M == <<Sel(<<Metric("m")>>)>>
 MX == <<Sel(<<Metric("m"), Eq("a", "x")>>)>>
 MPin == <<SelAt(<<Metric("m")>>, 0, "lit", 2)>>
 MEnd == <<SelAt(<<Metric("m")>>, 1, "end", 0)>>
+MXPin == <<SelAt(<<Metric("m"), Eq("a", "x")>>, 0, "lit", 2)>>
 PS == <<Sel(<<Metric("p")>>), Fn("scalar", <<1>>)>>
 TimeF == <<Fn("time", <<>>)>>
 F1(fn, p) == Over(p, LAMBDA c : Fn(fn, <<c>>))
@@ -77,7 +78,9 @@ Shapes == <<
   \* vector <op> scalar with a scalar that differs from step to step
   "vec_minus_time", "time_minus_vec", "vec_mul_ps", "vec_gtbool_time",
   \* rarely used syntax: unary plus, parentheses around a selector that is a function's argument
-  "timestamp_pos", "timestamp_paren", "timestamp_pos_off", "pos_vec", "pos_agg", "abs_pos", "sum_timestamp_pos" >>
+  "timestamp_pos", "timestamp_paren", "timestamp_pos_off", "pos_vec", "pos_agg", "abs_pos", "sum_timestamp_pos",
+  \* scalar-typed expressions over @-pinned parts (evaluated once, at the pinned time, for every step of the window)
+  "scalar_pin", "vec_plus_scalar_pin", "clampmin_scalar_sumend", "vector_scalar_pin", "scalar_pin_plus_time" >>
 
 PH(p) == FoldSet(LAMBDA u, acc : acc + (IF p[u] = "-" THEN 0 ELSE IF p[u] = "f" THEN u ELSE 5 * u), 0, 1..Period)
 Hash(x) == (x.n * 7 + (IF x.vp = "pos" THEN 1 ELSE IF x.vp = "mixed" THEN 2 ELSE 3) * 11 + x.lb * 13
@@ -141,6 +144,11 @@ PlanOf(x) ==
     [] sh = "pos_agg"        -> Over(SumA(M), LAMBDA c : Pos(c))
     [] sh = "abs_pos"        -> F1("abs", Over(M, LAMBDA c : Pos(c)))
     [] sh = "sum_timestamp_pos" -> SumA(F1("timestamp", Over(M, LAMBDA c : Pos(c))))
+    [] sh = "scalar_pin"     -> F1("scalar", MXPin)
+    [] sh = "vec_plus_scalar_pin" -> B("+", M, F1("scalar", MXPin))
+    [] sh = "clampmin_scalar_sumend" -> F2("clamp_min", M, F1("scalar", Over(MEnd, LAMBDA c : Agg("sum", TRUE, <<>>, <<c>>))))
+    [] sh = "vector_scalar_pin" -> F1("vector", F1("scalar", MXPin))
+    [] sh = "scalar_pin_plus_time" -> B("+", F1("scalar", MXPin), TimeF)
     [] sh = "vec_minus_time" -> B("-", M, TimeF)
     [] sh = "time_minus_vec" -> B("-", TimeF, M)
     [] sh = "vec_mul_ps"     -> B("*", M, PS)
